@@ -78,6 +78,8 @@ def generate(seed, batch):
     # load level and prescribed (known) amplitudes: torsion angle and load-asymmetry angle, scaled by inc
     scen['inc'] = rng.choice([1.0, 1.0, rng.uniform(0.05, 1.0), rng.uniform(0.05, 1.0), 0.0])    # (0: the unloaded reference level)
     scen['np_scalars'] = rng.random() < 0.3
+    # the same shell in another force unit (a power of two, so that the scaling is exact in floating point)
+    scen['unit_check'] = rng.choice([None, None, None, None, -70, -40, 30])
     scen['shell']['thetaTdeg'] = rng.choice([0.0, 0.0, rng.uniform(-2.0, 2.0)])
     scen['shell']['betadeg'] = rng.choice([0.0, 0.0, 0.0, rng.uniform(0.05, 1.0)])
     # which rigid-body amplitudes are prescribed: default (torsion + asymmetry), plus shortening, shortening without torsion, ...
@@ -181,19 +183,20 @@ def build_shell(scen):
     cc.ni_num_cores = 1
     cc.alphadeg = sh['alphadeg']
     if sh['model'].startswith('iso_'):
-        cc.E11, cc.nu, cc.h = sh['E11'], sh['nu'], sh['h']
+        cc.E11, cc.nu, cc.h = sh['E11'] * sh.get('unit', 1.0), sh['nu'], sh['h']
         cc.laminaprop = None
     else:
-        cc.laminaprop = (123.55e3, 8.708e3, 0.319, 5.695e3, 5.695e3, 5.695e3)
+        u_ = sh.get('unit', 1.0)       # force unit: every stiffness-like quantity carries this factor
+        cc.laminaprop = (123.55e3 * u_, 8.708e3 * u_, 0.319, 5.695e3 * u_, 5.695e3 * u_, 5.695e3 * u_)
         cc.stack = list(sh['stack'])
         cc.plyt = sh['plyt']
     if sh.get('force_ortho'):
         cc.force_orthotropic_laminate = True
     cc.r2 = sh['r2']
     cc.H = sh['H']
-    pen = sh['penalty']
+    pen = sh['penalty'] * sh.get('unit', 1.0)
     cc.kuBot = cc.kvBot = cc.kwBot = cc.kuTop = cc.kvTop = cc.kwTop = pen
-    cc.kphixBot = cc.kphixTop = sh['kphix']
+    cc.kphixBot = cc.kphixTop = sh['kphix'] * sh.get('unit', 1.0)
     cc.with_k0L = sh['with_k0L']
     cc.with_kLL = sh['with_kLL']
     cc.thetaTdeg = sh.get('thetaTdeg', 0.0)
@@ -443,6 +446,25 @@ def execute(scen):
                 raise v
             bump(res['probes'], 'J8_free_full_vector_checked')
             res['steps'] += 5
+        # ---- J11: the same shell with every stiffness-like input multiplied by u = 2^k (another force unit): tangent and
+        #      internal force are multiplied by u - nothing in them may depend on the absolute magnitude of the numbers
+        if scen.get('unit_check') is not None:
+            import copy as _cp
+            u = 2.0 ** scen['unit_check']
+            scen_u = _cp.deepcopy(scen)
+            scen_u['shell']['unit'] = sh.get('unit', 1.0) * u
+            cu_ = build_shell(scen_u)
+            cu_.ni_num_cores = cc.ni_num_cores
+            cu_.calc_fext(silent=True)
+            kT_u = cu_.calc_kT(c, inc=inc_arg, silent=True).toarray()
+            f_u = np.array(cu_.calc_fint(c, inc=inc_arg, silent=True), dtype=float)
+            for nm, a, b in (('kT', kT_u, kT * u), ('fint', f_u, fint_c * u)):
+                scb = np.abs(b).max()
+                if not (np.abs(a - b).max() <= 1e-11 * scb):
+                    raise Violation('J11-units', dict(ctx, quantity=nm, unit_factor='2^%d' % scen['unit_check'], maxdiff=float(np.abs(a - b).max()),
+                                                      scale=float(scb), why='the result does not scale with the force unit'))
+            bump(res['probes'], 'J11_units_checked')
+            res['steps'] += 2
         # ---- J10: the parts the object exposes after an evaluation (kL = linear + displacement-dependent part, kG = initial-
         #      stress part) add up to the tangent it returned, at every state, also when they are read between evaluations
         def parts_consistent(x, label):
